@@ -35,6 +35,13 @@ def variants(rng, base, tier):
     for k, ch in enumerate("abcdefghijklmnopqrstuvwxyz"):
         ty = [("b", "int32"), ("p", ("b", "string")), ("s", ("b", "float64")), ("b", "bool")][k % 4]
         out.append(("excl:%sfield@Root[%d]" % (ch, k % (nroot + 1)), G.decorate(decls, "Root", k % (nroot + 1), {"names": [ch + "field"], "type": ty, "tag": None}), "unexported-letter"))
+    # one declaration with an exported and an unexported name (`Mixed9, hidden9 int64`): parse.go skips declarations with
+    # several names altogether; were they supported, only Mixed9 may become a column - never hidden9
+    for pos in (0, nroot):
+        mixed = {"names": ["Mixed9", "hidden9"], "type": ("b", "int64"), "tag": None}
+        only = {"names": ["Mixed9"], "type": ("b", "int64"), "tag": None}
+        out.append(("mixed:Mixed9,hidden9@Root[%d]" % pos, G.decorate(decls, "Root", pos, mixed), "mixed-multi-name"))
+        out.append(("mixedalt:Mixed9@Root[%d]" % pos, G.decorate(decls, "Root", pos, only), "alt"))
     # other struct-tag keys (json, db, xml) around the parquet key of every field: nothing changes
     out.append(("tagkeys:all", G.with_other_tag_keys(decls), "other-tag-keys"))
     # two excluded fields at once
@@ -51,7 +58,7 @@ def variants(rng, base, tier):
                 if reuse is not None:      # the embedded struct is a type the file already declares and uses as a named field
                     out.append(("embed-reuse:%s[%d:%d]" % (tname, i, i + k), reuse, "embed-reuse"))
     if tier == "quick":
-        keep = [v for v in out if v[2] not in ("excluded", "embed-reuse", "other-tag-keys", "unexported-letter")]
+        keep = [v for v in out if v[2] not in ("excluded", "embed-reuse", "other-tag-keys", "unexported-letter", "mixed-multi-name", "alt")]
         ex = [v for v in out if v[2] == "excluded"]
         rng.shuffle(ex)
         keep = rng.sample(keep, min(len(keep), 10))
@@ -60,7 +67,7 @@ def variants(rng, base, tier):
         for v in ex:
             first.setdefault(v[0].split("@")[0], v)
         ex = list(first.values()) + [v for v in ex if v not in first.values()]
-        out = ex[:max(22, len(first))] + keep + [v for v in out if v[2] in ("embed-reuse", "other-tag-keys", "unexported-letter")]
+        out = ex[:max(22, len(first))] + keep + [v for v in out if v[2] in ("embed-reuse", "other-tag-keys", "unexported-letter", "mixed-multi-name", "alt")]
     return decls, out
 
 
@@ -128,6 +135,16 @@ def run(chk, st, tier):
                 if mism <= 3:
                     chk.broke("correspondence:C14", "column tree of %s/%s: parse.Fields %s..., model %s..." % (b.name, label, (a or "")[:80], (m or "")[:80]))
             src = G.go_source("p", d)
+            if kind == "alt":
+                continue                                  # only the reference of a mixed-multi-name variant
+            if kind == "mixed-multi-name":
+                alt = impl.get(idx[(b.name, label.replace("mixed:Mixed9,hidden9", "mixedalt:Mixed9"))])
+                if a != base_tree and a != alt:
+                    chk.fail("tree|%s|mixed-multi-name" % b.name, "%s with `Mixed9, hidden9 int64`: the columns parquetgen sees are neither the undecorated struct's nor those with Mixed9 alone (%s...)" % (b.name, (a or "")[:120]),
+                             {"go": src, "base_go": G.go_source("p", decls)})
+                else:
+                    tree_ok += 1
+                continue
             if a != base_tree:
                 chk.fail("tree|%s|%s" % (b.name, label.split("@")[0].split("[")[0]), "%s with %s: the columns parquetgen sees differ from the undecorated struct's (%s... vs %s...)" % (b.name, label, (a or "")[:100], (base_tree or "")[:100]),
                          {"go": src, "base_go": G.go_source("p", decls)})
